@@ -533,22 +533,25 @@ Qed.
    Every order >= 1, shape, rank, modes list ending with the last mode (or empty: all modes fixed) *)
 Theorem C06_parafac_iteration_on_data_reports_true_error : forall (F : Type) (Op : fops F),
   ring_theory (f0 Op) (f1 Op) (fadd Op) (fmul Op) (fsub Op) (fopp Op) (@eq F) ->
-  forall (solve : nat -> tensor F -> list (tensor F) -> tensor F) (X : tensor F) (R : nat) (w : option (list F)) (ms : list nat) (fs : list (tensor F)),
+  forall (solve : nat -> tensor F -> list (tensor F) -> tensor F) (X : tensor F) (R : nat) (w : option (list F)) (card : option nat)
+         (ms : list nat) (fs : list (tensor F)),
   0 < length (shape X) -> length fs = length (shape X) -> (ms = [] \/ last ms 0 = length (shape X) - 1) ->
-  parafac_iteration_error Op solve X R w ms fs
-  = err_explicit Op X (cp_tensor_entry Op R w (fst (data_sweep Op solve X R w ms fs None))) None None.
+  parafac_iteration_error Op solve X R w card ms fs
+  = (let fs' := fst (data_sweep Op solve X R w ms fs None) in
+     err_explicit Op X (cp_tensor_entry Op R w fs') (sparse_of Op X (cp_tensor_entry Op R w fs') card None) None).
 Proof. exact @parafac_iteration_reports_true_error. Qed.
 Print Assumptions C06_parafac_iteration_on_data_reports_true_error.
-(* ... iterated: every entry of the list of a run on data is the explicit squared residual (and squared norm) of the factors at the end of its
-   iteration, and the returned factors are those of the last iteration *)
+(* ... iterated: every entry of the list of a run on data is the explicit squared residual (minus the sparse component when sparsity is set; and the
+   squared norm) of the factors at the end of its iteration, and the returned factors are those of the last iteration *)
 Theorem C06_parafac_loop_on_data_reports_true_errors : forall (F : Type) (Op : fops F),
   ring_theory (f0 Op) (f1 Op) (fadd Op) (fmul Op) (fsub Op) (fopp Op) (@eq F) ->
-  forall (solve : nat -> nat -> tensor F -> list (tensor F) -> tensor F) (X : tensor F) (R : nat) (w : option (list F)) (ms : list nat),
+  forall (solve : nat -> nat -> tensor F -> list (tensor F) -> tensor F) (X : tensor F) (R : nat) (w : option (list F)) (card : option nat) (ms : list nat),
   0 < length (shape X) -> (ms = [] \/ last ms 0 = length (shape X) - 1) ->
   forall n it fs errs, length fs = length (shape X) ->
-  snd (parafac_data_loop Op solve X R w ms n it fs errs)
-  = errs ++ map (fun fs_j => err_explicit Op X (cp_tensor_entry Op R w fs_j) None None) (parafac_data_states Op solve X R w ms n it fs) /\
-  fst (parafac_data_loop Op solve X R w ms n it fs errs) = last (parafac_data_states Op solve X R w ms n it fs) fs.
+  snd (parafac_data_loop Op solve X R w card ms n it fs errs)
+  = errs ++ map (fun fs_j => err_explicit Op X (cp_tensor_entry Op R w fs_j) (sparse_of Op X (cp_tensor_entry Op R w fs_j) card None) None)
+                (parafac_data_states Op solve X R w ms n it fs) /\
+  fst (parafac_data_loop Op solve X R w card ms n it fs errs) = last (parafac_data_states Op solve X R w ms n it fs) fs.
 Proof. exact @parafac_data_loop_reports_true_errors. Qed.
 Print Assumptions C06_parafac_loop_on_data_reports_true_errors.
 (* the CP loop under a 0/1 mask (optionally with sparsity): error_calc reads the tensor it is given only through its observed entries, and the
@@ -638,7 +641,7 @@ Example C06_round6_nonvacuous :
   (let X := mk [2;3;2] [1;2;3;4;5;6;7;8;9;10;11;12]%Z in
    let fs := [mk [2;2] [1;0;1;1]%Z; mk [3;2] [1;2;0;1;1;1]%Z; mk [2;2] [1;1;2;0]%Z] in
    let solve := fun (m : nat) (_ : tensor Z) (cur : list (tensor Z)) => nth m fs (mk [] []) in
-   fst (parafac_iteration_error Zops solve X 2 (Some [2;3]%Z) [0;1;2] [mk [2;2] [0;0;0;0]%Z; mk [3;2] [1;1;1;1;1;1]%Z; mk [2;2] [5;5;5;5]%Z]) = 296%Z).
+   fst (parafac_iteration_error Zops solve X 2 (Some [2;3]%Z) None [0;1;2] [mk [2;2] [0;0;0;0]%Z; mk [3;2] [1;1;1;1;1;1]%Z; mk [2;2] [5;5;5;5]%Z]) = 296%Z).
 Proof. split; [apply finite_report_of_nonneg; lra | vm_compute; reflexivity]. Qed.
 
 (* ---- non-vacuity: the hypotheses are satisfiable and the model computes *)
